@@ -526,10 +526,17 @@ def str_strict_coercion_loader(data):
     raise TypeLoadError(str, data)
 
 
+def str_lax_coercion_loader(data):
+    try:
+        return str(data)
+    except ValueError as e:  # an integer beyond the limit of int -> str conversion
+        raise ValueLoadError(str(e), data)
+
+
 STR_PROVIDER = ScalarProvider(
     target=str,
     strict_coercion_loader=str_strict_coercion_loader,
-    lax_coercion_loader=str,
+    lax_coercion_loader=str_lax_coercion_loader,
     dumper=as_is_stub,
     json_schema=JSONSchema(type=JSONSchemaType.INTEGER),
 )
@@ -675,7 +682,7 @@ class SelfTypeProvider(MorphingProvider):
 class LiteralStringProvider(MorphingProvider):
     def provide_loader(self, mediator: Mediator, request: LoaderRequest) -> Loader:
         strict_coercion = mediator.mandatory_provide(StrictCoercionRequest(loc_stack=request.loc_stack))
-        return str_strict_coercion_loader if strict_coercion else str
+        return str_strict_coercion_loader if strict_coercion else str_lax_coercion_loader
 
     def provide_dumper(self, mediator: Mediator, request: DumperRequest) -> Dumper:
         return as_is_stub
